@@ -1,4 +1,5 @@
 import RtcModel.Latch
+import RtcModel.LatchRace
 import RtcModel.Drv.Util
 namespace RtcModel.Drv.C18
 open RtcModel.Latch RtcModel.Drv
@@ -56,10 +57,37 @@ def runOps (s0 : St) (ops : List String) : String :=
   let (t0, p0) := showSt s0 "-" none
   " ".intercalate (go s0 p0 ops [t0])
 
+def splitBar (ws : List String) : List (List String) :=
+  ws.foldr (fun w acc => if w = "|" then [] :: acc else match acc with | [] => [[w]] | g :: gs => (w :: g) :: gs) [[]]
+
+/-- `race <id> init,… op … | p,ip,port,hex | api-op | schedule` — the final state of the
+interleaving machine for that schedule (plus the harness's tail `rsrs…` that lets both finish) -/
+def handleRace (args : List String) : String :=
+  open RtcModel.LatchRace in
+  match splitBar args with
+  | [ini :: ops, [pk], [api], [sched]] =>
+    match fields ini with
+    | ["init", ip, port, maxp, tcp] =>
+      match ip.toNat?, port.toNat?, maxp.toNat?, ops.mapM parseOp, parseOp pk, parseOp api with
+      | some ip, some port, some maxp, some ops, some (.pkt a (.rtp ssrc seq ts m)), some apiOp =>
+        match apiCrit apiOp with
+        | some A =>
+          let s0 := run (init ⟨ip, port⟩ maxp (tcp = "1")) ops
+          if s0.latchOn ∧ (s0.expected = 0 ∨ ssrc = s0.expected) then
+            let bits := (sched.toList ++ "rsrsrsrsrsrsrsrsrsrs".toList).map (fun c => c == 'r')
+            let y := runSched (recvCrit a ssrc seq ts m) A { st := s0, r := .start, a := .start } bits
+            if rDone y.r ∧ aDone y.a then (showSt y.st "-" none).1 else "not-finished"
+          else "race-model-needs-latching-and-expected-ssrc-rtp"
+        | none => "bad-api"
+      | _, _, _, _, _, _ => "bad-race-args"
+    | _ => "bad-init"
+  | _ => "bad-race"
+
 /-- `latch <id> init,ip,port,maxp,tcp op op …` — a bare `IceConn`.
     `pc <id> init,ip,port,maxp,tcp op op …` — the same ops as issued by a real `PeerConnection`
     (SDP retargets, pair-monitor updates, UDP packets); only the public part is compared.
     `writers <id> <file:count …>` — every writer of `remote_addr` is a modelled site.
+    `race <id> …` — see `handleRace` / `RtcModel.LatchRace`.
  -/
 def handle (stream : String) (args : List String) : String :=
   match stream, args with
@@ -88,6 +116,7 @@ def handle (stream : String) (args : List String) : String :=
         " ".intercalate (go (init ⟨ip, port⟩ maxp false) true ops [])
       | _, _, _ => "bad-init"
     | _ => "bad-init"
+  | "race", args => handleRace args
   | "writers", sites => " ".intercalate (sites.map fun s =>
       match s.splitOn "=" with
       | [f, n] => if RtcModel.Latch.modelledWriters f = n.toNat? then s!"{f}=ok" else s!"{f}=UNMODELLED-WRITER"
